@@ -2,9 +2,8 @@ SPECIFICATION Spec
 CONSTANTS
   Universe <- U3
   Absent <- A1
-  StopEarly = FALSE
+  StopEarly = TRUE
   MaxPresent = 3
 INVARIANT C13
 INVARIANT Bounded
-INVARIANT Emit
 CHECK_DEADLOCK FALSE
